@@ -414,8 +414,8 @@ def make_errorpos(job):
         except asn1tools.ParseError as e:
             real = str(e)
         ctx.res.xval += 1
-        mm = _re.match(r'Invalid ASN.1 syntax at line (\d+), column (\d+)', msg or '')
-        rm = _re.match(r'Invalid ASN.1 syntax at line (\d+), column (\d+)', real or '')
+        mm = _re.search(r'line\s+(\d+)', msg or '')
+        rm = _re.search(r'line\s+(\d+)', real or '')
         if not mm:
             ctx.violation('offending-item-not-reported', 'symbolic run: %r' % (msg,))
             return
@@ -487,7 +487,7 @@ def replay(v):
             asn1tools.parse_string(t)
             return True, 'text %r is accepted' % t
         except asn1tools.ParseError as e:
-            mm = _re.match(r'Invalid ASN.1 syntax at line (\d+), column (\d+)', str(e))
+            mm = _re.search(r'line\s+(\d+)', str(e))
             if not mm:
                 return True, 'text %r: error without position: %s' % (t, e)
             if int(mm.group(1)) != want:
